@@ -28,7 +28,7 @@ func Matrix(emit func(*Program), stride int) {
 	hazard := false // post-genesis OP_NUM2BIN with a multi-megabyte target: memory policy, not semantics
 	add := func(lock []byte, kind string) {
 		n++
-		if stride > 1 && n%stride != 0 {
+		if stride > 1 && n%stride != 0 && kind != "shift" && kind != "shift-big" && kind != "matrix1" {
 			return
 		}
 		for _, fl := range FlagSets {
